@@ -96,7 +96,7 @@ Proof.
     + reflexivity.
     + apply ex_no_namespaces. left. reflexivity.
     + intros st H. apply (ex_no_namespaces ex_right (or_intror eq_refl) st H).
-  - destruct fl as [[] [] []]; split; vm_compute; reflexivity.
+  - destruct fl as [[] [] [] []]; split; vm_compute; reflexivity.
 Qed.
 
 (* ---------------------------------------------------------------------------------------------- *)
@@ -116,7 +116,7 @@ Definition leak_p (loc : string) : past :=
          fn_start [sexpr (PIf [PIfBranch (Some (PBool true (s_ 3))) [defl loc 4 (PInt 5 (s_ 4))] (s_ 3)] (s_ 3)) 3;
                    sexpr (read_ "y" 6) 6]].
 
-Definition lexical : rflags := mkFlags true true true.
+Definition lexical : rflags := mkFlags true true true true.
 
 Lemma leak_alpha_lexical : alpha_ast lexical (fun s => s) no_ns no_sure (leak_p "y") (leak_p "z").
 Proof.
@@ -141,5 +141,5 @@ Theorem alpha_lexical_refuted : forall fl, if_truncates fl = false ->
   /\ ~ res_rel (resolve fl (leak_p "y")) (resolve fl (leak_p "z")).
 Proof.
   intros fl H. split; [exact leak_alpha_lexical|].
-  destruct fl as [[] [] []]; try discriminate H; vm_compute; intros E; discriminate E.
+  destruct fl as [[] [] [] []]; try discriminate H; vm_compute; intros E; discriminate E.
 Qed.
